@@ -128,6 +128,7 @@ func observeLoop(prop string, c *Case, cov *Cov) []*Violation {
 	case "C02":
 		f := append(append([]byte(nil), lr.Out...), lr.Rest...)
 		checkConservation(s, f, add)
+		checkNoDumpNoWithholding(s, calls, add)
 	case "C07":
 		checkDelimitation(c, s, calls, rems, opts, add)
 	}
@@ -265,6 +266,51 @@ func checkConservation(s *gen.Stream, f []byte, add func(clause, known, msg stri
 		return
 	}
 	add("withheld", known, fmt.Sprintf("the output is not the input minus dump lines and at most one blank line after each dump (blank lines or dump-line fragments do not line up); input %d lines, output %d lines; first difference at output offset %d", n, len(fl), FirstDiff(f, b)))
+}
+
+// checkNoDumpNoWithholding: "the only bytes ever withheld are the lines of the
+// dump itself": a call that recognised no dump (it returned no snapshot) has
+// nothing it may withhold - what it forwarded followed by what it handed back
+// is exactly what it consumed. The alignment above cannot see this when the
+// lines concerned were generated as a dump that the scanner then rejects at
+// its first lines (a report whose first operation header carries a number no
+// integer holds): there the lines are "dump lines" by construction and no dump
+// by recognition.
+func checkNoDumpNoWithholding(s *gen.Stream, calls []CallRes, add func(clause, known, msg string)) {
+	b := s.Bytes
+	start := 0
+	for i, cr := range calls {
+		end := cr.OffAfter
+		if end > len(b) || start > end {
+			return
+		}
+		if cr.Snap == nil && cr.Panic == "" {
+			got := append(append([]byte(nil), cr.Fwd...), cr.Suffix...)
+			if want := b[start:end]; !bytes.Equal(got, want) {
+				known := ""
+				if len(got) < len(want) && bytes.HasPrefix(want, got) && end == len(b) {
+					// KF-1: stray race header lines at the very end of the stream
+					lost := want[len(got):]
+					tail := kf1Tail(s)
+					n := 0
+					for li := range tail {
+						n += s.Lines[li].End - s.Lines[li].Start
+					}
+					if n == len(lost) && len(tail) > 0 {
+						known = "KF-1"
+					}
+				}
+				if known != "" {
+					add("junk-lost", known, "stray race header lines at the very end of the stream ('==================', optionally followed by 'WARNING: DATA RACE') are held back and never forwarded")
+				} else {
+					d := FirstDiff(got, want)
+					add("no-dump-withheld", "", fmt.Sprintf("call #%d returned no snapshot (%s) yet what it forwarded (%d bytes) followed by what it handed back (%d bytes) is not what it consumed (stream bytes %d..%d): first difference at +%d, consumed %s, emitted %s", i, ErrKey(cr.Err), len(cr.Fwd), len(cr.Suffix), start, end, d, Clip(want[min(d, len(want)):], 80), Clip(got[min(d, len(got)):], 80)))
+				}
+				return
+			}
+		}
+		start = end - len(cr.Suffix)
+	}
 }
 
 // ---- C07 oracle -------------------------------------------------------------
